@@ -30,6 +30,39 @@ CLAIMED = {
                      'are checked; quantiles are checked against the C09 convention on the library\'s own numbers.',
                 note='Trusts the reference model (about 150 lines, dsim/models.py); N_U = 0 and single-edge magnitude '
                      'grids are documented preconditions and are skipped and counted.'),
+    'C05': dict(engine='rngsim', design='4/C05',
+                technique='deterministic simulation: recorded and perturbed global-RNG stream; every simulated catalog rebuilt '
+                          'from the recorded draws by an exact-rational inverse CDF and scored by a reference Poisson likelihood',
+                text='Seeded histories of the four Poisson tests on generated forecasts (rates over 1e-12..1e3 with zero-rate '
+                     'bins, 0..hundreds of events, several per bin) with the process-global NumPy RNG owned by the simulator: '
+                     'the Poisson count and every uniform are recorded, the simulated catalog of each test-distribution entry is '
+                     'reconstructed and its joint log-likelihood recomputed (full rates for L/CL, marginals scaled to N_obs for '
+                     'S/M), as is the observed statistic incl. the minus-infinity rule. NOISE ops and re-seeding between calls '
+                     'vary the stream. Clause 2 of the property is undecidable without the RNG seam.',
+                note='Trusts the 30-line reference likelihood and the exact-rational placement (dsim/models.py); draws within the '
+                     'float slop of a cumulative boundary are accepted in either adjacent positive-rate bin.'),
+    'C06': dict(engine='rngsim', design='4/C06',
+                technique='deterministic simulation with fault injection on the RNG seam: override scripts place legal extreme '
+                          'uniforms / Poisson counts, NOISE ops perturb the shared generator, draw budgets bound rejection loops',
+                text='The RNG seam injects 0.0, the largest double below 1, every cumulative boundary and its neighbours, '
+                     'zero-rate gaps and values at or above a last cumulative weight that rounds below 1, at random draw '
+                     'positions or through random_numbers=; oracles: conservation of counts (number of uniforms consumed per '
+                     'simulated catalog, Poisson mean = forecast total), exact inverse-CDF placement and never a zero-rate bin, '
+                     'no exception for any legal draw, quantile = fraction of simulations not exceeding the observed value, '
+                     'bit-identical results for equal (forecast, catalog, seed) whatever other components did to the global '
+                     'generator in between - seed 0 included, for the two seeded catalog tests too - and termination of the '
+                     'binary/Brier rejection loops within a probability-aware draw budget.',
+                note='Liveness budget per simulation 1000 + 50*n_active/q uniforms (hard cap 400k per call; above the cap not '
+                     'judged). Scenarios with more active bins than positive-rate bins are vacuous and not generated.'),
+    'C16': dict(engine='rngsim', design='4/C16',
+                technique='deterministic simulation: rejection-loop uniform stream recorded through the RNG seam and segmented '
+                          'by a reference model; binary likelihood / Brier recomputed for observed and every simulated catalog',
+                text='Binary S/CL and Brier tests on generated forecasts (rates 1e-3..3, zeros) with the uniform stream of the '
+                     'rejection loops recorded; the activity pattern of every simulated catalog is rebuilt (duplicates '
+                     'rejected) and scored by the definitions; observed statistics are recomputed too and a twin catalog with '
+                     'changed multiplicities must give the identical statistic.',
+                note='ln(1-exp(-rate)) evaluated literally in floats loses eps/rate relative accuracy; the model uses expm1 and '
+                     'tolerates that much. Known finding K01 (active zero-rate bin) is listed in known_findings.json.'),
 }
 
 NOT_APPLICABLE = {
@@ -46,7 +79,7 @@ NOT_APPLICABLE = {
 }
 
 PENDING = {p: 'not claimed yet: the simulator engine for this property is still under construction (DESIGN.md section 10); it is a simulation target and will be claimed when its check exists'
-           for p in ('C04', 'C05', 'C06', 'C11', 'C14', 'C16', 'C18', 'C20')}
+           for p in ('C04', 'C11', 'C14', 'C18', 'C20')}
 
 
 def main():
